@@ -244,3 +244,7 @@ pub fn create_item_delta(
     }
     Ok(())
 }
+
+#[cfg(any(kani, libtw2_verif))]
+#[path = "/verif/kani/snapshot_format.rs"]
+mod verif_kani;
